@@ -190,13 +190,20 @@ class Transaction:
         return None
 
     @staticmethod
-    def _schema_signature(schema: Schema) -> Set[Any]:
-        """Comparable signature of a schema's fields (name, type, required)."""
-        sig = set()
+    def _schema_signature(schema: Schema) -> List[Any]:
+        """Comparable signature of a schema's fields: (id, name, type, required), IN ORDER.
+
+        Field order and field ids are part of the signature. pa.concat_tables
+        needs identical column order, so files written from a re-ordered schema
+        argument made every later scan fail; and column bounds are stored under
+        the argument's field ids while pruning looks them up under the table's,
+        so swapped ids made filtered scans silently drop rows.
+        """
+        sig = []
         for f in schema.fields:
             f_type = f.get("type")
             type_key = json.dumps(f_type, sort_keys=True) if isinstance(f_type, (dict, list)) else f_type
-            sig.add((f.get("name"), type_key, bool(f.get("required", False))))
+            sig.append((f.get("id"), f.get("name"), type_key, bool(f.get("required", False))))
         return sig
 
     def _validate_schema_against_table(self, schema: Schema) -> None:
